@@ -16,6 +16,7 @@
 #include "socket_tls_impl.h"
 #include "sockpuppet/socket_async.h"
 
+#include <openssl/err.h>
 #include <openssl/ssl.h>
 
 #include <arpa/inet.h>
@@ -626,6 +627,43 @@ int main()
                    (sc.s ? har::hex(sc.s->payload) : "-"));
         } else if(!sc.setupOk) {
           continue;
+        } else if(w[0] == "poison") {
+          // F15: another TLS socket OF THIS THREAD whose handshake never finishes (a silent plain TCP peer) and that is
+          // destroyed in that state (SSL_shutdown fails with "shutdown while in init": an entry in the thread's OpenSSL
+          // error queue).  Nothing of it is reported: the endpoints under test must simply be unaffected.
+          int l = -1, acc = -1;
+          uint16_t port = 0;
+          {
+            vos::Bypass bypass;
+            l = ::socket(AF_INET, SOCK_STREAM, 0);
+            sockaddr_in a{};
+            a.sin_family = AF_INET;
+            a.sin_addr.s_addr = htonl(INADDR_LOOPBACK);
+            ::bind(l, reinterpret_cast<sockaddr *>(&a), sizeof(a));
+            ::listen(l, 1);
+            socklen_t sl = sizeof(a);
+            ::getsockname(l, reinterpret_cast<sockaddr *>(&a), &sl);
+            port = ntohs(a.sin_port);
+          }
+          bool regWas = reg::on;
+          reg::on = false;           // its engine calls are nobody's business
+          vos::log_enable(false);
+          std::string how = "destroyed-in-handshake";
+          try {
+            SocketTcp doomed(Address("127.0.0.1:" + std::to_string(port)), cert.c_str(), key.c_str());
+            try { (void)doomed.Send("x", 1, Duration(0)); } catch(std::exception const &e) { how = std::string("send-threw ") + e.what(); }
+            vos::hang_returns(true); // the destructor's SSL_shutdown waits (virtually) for a peer that says nothing
+          } catch(std::exception const &e) { how = std::string("setup-threw ") + e.what(); }
+          vos::hang_returns(false);
+          vos::log_enable(true);
+          reg::on = regWas;
+          har::obs("poisoned " + how + " errq=" + std::to_string(ERR_peek_error() != 0));
+          {
+            vos::Bypass bypass;
+            acc = ::accept4(l, nullptr, nullptr, SOCK_NONBLOCK);
+            if(acc >= 0) ::close(acc);
+            ::close(l);
+          }
         } else if(w[0] == "bg" && w.size() >= 3) {
           // bg <side> <order>   : blocking program (unlimited timeouts) on its own thread
           Ep *e = sc.ep(w[1]);
